@@ -692,7 +692,7 @@ func c12World(rc *kernel.RunCtx) {
 		park := func(kind string, n int) { k.Park(c.name, kind, fmt.Sprint(n), nil) }
 		c.env.Hook = func(kind, key string) { k.Park(c.name, kind, key, nil) }
 		c.w = &core{fault: c.fault, sticky: true, park: park, limit: 512 << 10}
-		k.Go(func() {
+		k.GoNamed(c.name, func() {
 			k.Park(c.name, "start", "", nil)
 			if c.viaMW || c.viaHandler {
 				comp := c.env.buildTracked(c.specs[0])
@@ -743,6 +743,7 @@ func c12World(rc *kernel.RunCtx) {
 			}
 		})
 	}
+	pk := newPicker(t)
 	for {
 		k.Quiesce()
 		ps := k.ParkedList()
@@ -769,7 +770,7 @@ func c12World(rc *kernel.RunCtx) {
 		}
 		i := 0
 		if k.Steps < maxSteps {
-			i = t.Choose(len(ps), "sched")
+			i = pk.pick(t, ps)
 		}
 		k.Run(ps[i], kernel.Decision{})
 	}
